@@ -361,7 +361,8 @@ class Walker:
                     rargs = tuple(("ref", st["env"][a[1][1]]) if (a[0] == "ref" and a[1][0] == "local" and len(a[1]) > 2
                                                                   and a[1][2] == self.body.path and a[1][1] in st["env"]) else a
                                   for a in args)
-                    ev = ("call", fname, args, res, resolved, t.get("line"), fterm, tuple(t["func"].get("fn_args", [])), rargs)
+                    ev = ("call", fname, args, res, resolved, t.get("line"), fterm, tuple(t["func"].get("fn_args", [])), rargs,
+                          self.body.local_ty(dest["l"]) if not dest["proj"] else None)
                     st["events"].append(ev)
                     # &mut arguments: the callee may change what they point to
                     for a in args:
